@@ -10,7 +10,7 @@ from ..core import hx
 class C15(C06):
     ID = "C15"
     EXTRA_MODULES = []
-    LEMMA_FILES = ["FluentProofs/Memo.lean", "FluentProofs/MemoConc.lean", "FluentProofs/MemoConcPure.lean", "FluentProofs/ConstTieResolver.lean"]
+    LEMMA_FILES = ["FluentProofs/BundleLocale.lean", "FluentProofs/Memo.lean", "FluentProofs/MemoConc.lean", "FluentProofs/MemoConcPure.lean", "FluentProofs/ConstTieResolver.lean"]
     RULE = ("N in {2,4,8} real threads share ONE bundle created with new_concurrent by reference; released together by a "
             "barrier onto a cold formatter cache, each thread issues every request of the program (rotated order) — programs "
             "are GR bundles biased to plural selects (cardinal and ordinal, so the first lazily constructed PluralRules of both "
